@@ -195,9 +195,9 @@ var coreOps = map[string]bool{
 	"export:a": true, "export:f": true, "use-package:p": true, "use-package:q": true,
 	"set:a=1": true, "set:a=2": true, "set:p:a=3": true, "set!:a=4": true,
 	"defun:f-reads-a": true, "defun:f-sets-a=5": true, "defmacro:m-expands-a": true,
-	"load:q:set-a=6": true, "load:p:nested-q:set-a": true, "load:q:set-a=9:fails": true, "load:p:lib": true,
+	"load:q:set-a=6": true, "load:p:nested-q:set-a": true, "load:p:lib": true,
 	"ref:a": true, "ref:p:a": true, "ref:q:a": true, "call:f": true, "call:p:f": true, "call:q:f": true,
-	"call:m": true, "call:p:m": true, "let-a:call:f": true, "let-a:call:m": true,
+	"call:m": true, "let-a:call:f": true,
 	"let-a:ref:user:a": true, "let-a:ref:p:a": true, "let-a:ref:q:a": true,
 	"flet-f:call:p:f": true, "call:p:g": true,
 }
